@@ -428,7 +428,7 @@ func (fe *FE) applyContract(st *State, ins ssa.Instruction, ci *callInfo, res ss
 		}
 	} else if con.NoPanic == nil && !con.Pure && (con.MayPanic || !con.Extern && !con.Iface) {
 		// callee may panic
-		if fe.nopanic && !fe.structuralRecover() {
+		if fe.nopanic && fe.C.NoPanicOwn == nil && !fe.structuralRecover() {
 			fe.addOb(st, "safe", fmt.Sprintf("callee-nopanic.%s@%s", sanitizePat(shortName(name)), site), fe.tagsOf(fe.C.NoPanic), "false", "callee "+name+" is not nopanic")
 		}
 	}
@@ -1587,13 +1587,17 @@ func (fe *FE) execFmt(st *State, ins ssa.Instruction, callee *ssa.Function, ci *
 			return ""
 		}
 		f := constant.StringVal(k.Value)
-		if !strings.HasPrefix(f, "line %d") || len(ci.args) < 2 || ci.args[1].Kind != VSlice || fe.S.BV {
+		if !strings.HasPrefix(f, "line %d") || len(ci.args) < 2 || ci.args[1].Kind != VSlice {
 			return "(- 1)"
 		}
 		sl := ci.args[1]
 		et := com.Args[1].Type().Underlying().(*types.Slice).Elem()
 		h := fe.heapTerm(st, elemBase(et), arraySort([]string{SInt, SInt}, SInt))
 		r0 := sel(h, sl.Arr, sl.Off)
+		if fe.S.BV {
+			fe.globalDecl("unbox_int", "(declare-fun unbox_int (Int) (_ BitVec 64))")
+			return fe.bv2intSigned("(unbox_int "+r0+")", "(_ BitVec 64)")
+		}
 		fe.globalDecl("unbox_int", "(declare-fun unbox_int (Int) Int)")
 		return "(unbox_int " + r0 + ")"
 	}
